@@ -80,6 +80,12 @@ def gen_case(seed, idx, tier="quick"):
         if hi - lo > 10:
             spec["variant_collections"] = [specs.gen_variant_collection(rng, lo, hi, idx=str(i)) for i in range(rng.randint(1, 2))]
     spec["qualifiers"] = specs.gen_qualifiers(rng, keys=QUAL_KEYS, vals=QUAL_VALS, p_none=0.5)
+    if "N" not in par["genome"]["seq"].upper() and rng.random() < 0.4:
+        par["genome"]["alphabet"] = rng.choice(["NT_STRICT", "NT_EXTENDED", "NT_STRICT_GAPPED", "NT_STRICT_UNKNOWN"])
+    for g in spec["genes"]:
+        for t in g["transcripts"]:
+            if rng.random() < 0.1:
+                t["is_primary_tx"] = rng.choice([True, False])
     seeds = cfg["node_seeds"]
     a = rng.choice(seeds)
     b = rng.choice([s for s in seeds if s != a] or seeds) if rng.random() < 0.9 else a
@@ -89,11 +95,43 @@ def gen_case(seed, idx, tier="quick"):
         "hs_a": a,
         "hs_b": b,
         "warm": rng.random() < 0.35,
-        "decoy": rng.random() < 0.35,
+        "decoy": rng.choice([None, None, "bases", "unrelated", "unrelated"]),
+        "decoy_spec": gen_unrelated(rng),
         "fresh": rng.random() < cfg["fresh_p"],
         "sens": gen_sensitivity(rng, spec),
     }
     return case
+
+
+def gen_unrelated(rng):
+    """An unrelated, deliberately 'rich' collection a long-lived consumer may have built earlier in the same process:
+    variants at positions 0/1 with phase blocks 0/1, explicit primary flags, sequence."""
+    spec = specs.gen_collection(rng, L=rng.choice([50, 120]), n_genes=rng.randint(1, 2), n_fcs=1, parent_modes=("chrom",), seqname="chrZ")
+    L = len(spec["parent"]["genome"]["seq"])
+    vc = specs.gen_variant_collection(rng, 0, L, idx="z", seqname="chrZ", max_v=3)
+    if vc["variant_intervals"]:
+        v0 = vc["variant_intervals"][0]
+        v0["start"], v0["end"], v0["sequence"] = rng.choice([0, 1]), rng.choice([1, 2]) + 1, "A"
+        if v0["end"] <= v0["start"]:
+            v0["end"] = v0["start"] + 1
+        for v in vc["variant_intervals"]:
+            v["phase_block"] = rng.choice([0, 1, None])
+        if len(vc["variant_intervals"]) > 1 and vc["variant_intervals"][1]["start"] < v0["end"]:
+            vc["variant_intervals"] = vc["variant_intervals"][:1]
+    for g in spec["genes"]:
+        for i, t in enumerate(g["transcripts"]):
+            t["is_primary_tx"] = (i == 0)
+    for c in spec["feature_collections"]:
+        for i, f in enumerate(c["feature_intervals"]):
+            f["is_primary_feature"] = (i == 0)
+    # earlier activity comes in pieces and in any order: variants only / genes only / features only / everything
+    pieces = []
+    if vc["variant_intervals"]:
+        pieces.append(dict(spec, genes=[], feature_collections=[], variant_collections=[vc]))
+    pieces.append(dict(spec, feature_collections=[], variant_collections=[]))
+    pieces.append(dict(spec, genes=[], variant_collections=[]))
+    rng.shuffle(pieces)
+    return pieces[: rng.randint(1, len(pieces))]
 
 
 def gen_sensitivity(rng, spec):
@@ -383,12 +421,16 @@ def h_consume(req):
     from bcsim import build
 
     spec_b = req["spec"]
-    try:
-        built, _ = build.build_collection(spec_b)
-    except Exception as e:
-        return {"build_error": type(e).__name__, "hashseed": os.environ.get("PYTHONHASHSEED")}
-    parent = build.build_parent(spec_b["parent"])
     decoy_loaded = 0
+    if req.get("decoy_spec"):
+        # a long-lived consumer that built an unrelated collection earlier in this very process
+        for piece in req["decoy_spec"]:
+            try:
+                d, _ = build.build_collection(piece)
+                report(d)
+                decoy_loaded += 1
+            except Exception:
+                pass
     for form, payload in (req.get("decoy_forms") or {}).items():
         # a long-lived consumer: it served an earlier, unrelated request (same sequence name and length, other
         # bases) before this one.  Nothing of it may leak into what follows.
@@ -400,6 +442,11 @@ def h_consume(req):
             decoy_loaded += 1
         except Exception:
             pass
+    try:
+        built, _ = build.build_collection(spec_b)
+    except Exception as e:
+        return {"build_error": type(e).__name__, "hashseed": os.environ.get("PYTHONHASHSEED")}
+    parent = build.build_parent(spec_b["parent"])
     out = {"built": report(built), "loaded": [], "hashseed": os.environ.get("PYTHONHASHSEED"), "set_order_probe": _set_order_probe(spec_b),
            "decoy_loaded": decoy_loaded}
     items = [([], "AnnotationCollection", req["forms"]["coll"])] + [(c["path"], c["cls"], c["forms"]) for c in req["children"]]
@@ -541,7 +588,7 @@ def run_case(case):
     # restart: the producer's process is gone; only these bytes survive
     disk = json.loads(json.dumps({"forms": prod["forms"], "children": [{"path": c["path"], "cls": c["cls"], "forms": c["forms"]} for c in prod["children"]]}))
     decoy_forms = None
-    if case.get("decoy") and case["spec_a"]["parent"]["mode"] in ("chrom", "chunk"):
+    if case.get("decoy") in (True, "bases") and case["spec_a"]["parent"]["mode"] in ("chrom", "chunk"):
         dspec = copy.deepcopy(case["spec_a"])
         g = dspec["parent"]["genome"]
         g["seq"] = g["seq"].translate(str.maketrans("ACGT", "CATG"))
@@ -549,7 +596,7 @@ def run_case(case):
         if "forms" in dprod:
             decoy_forms = json.loads(json.dumps(dprod["forms"]["coll"]))
     cons = call_a(case["hs_b"], {"op": "c08.consume", "spec": case["spec_b"], "forms": disk["forms"], "children": disk["children"],
-                                 "decoy_forms": decoy_forms})
+                                 "decoy_forms": decoy_forms, "decoy_spec": case.get("decoy_spec") if case.get("decoy") == "unrelated" else None})
     if "build_error" in cons:
         fs = [{"inv": "build_determinism", "form": "build", "cls": "AnnotationCollection", "what": f"constructor:None!={cons['build_error']}"}]
         return fs, {"invalid_spec": 0}, engine.plan_digest(prod["report"])
@@ -770,7 +817,7 @@ def evidence(agg, tier, seed, wall, batches):
             "hashseed(producer!=consumer)": st["hashseed_differs"], "restart(bytes only survive)": st["restart"],
             "permute_sets(insertion order differs)": st["permute_sets"], "warm_before_serialize": st["warm_before_serialize"],
             "fresh_interpreter_consumer": st["fresh_interpreter"],
-            "stale_consumer(loaded a same-named, same-length, other-bases collection first)": st["stale_consumer"],
+            "stale_consumer(first loaded a same-named other-bases collection, or built an unrelated rich collection)": st["stale_consumer"],
         },
         "reach_probes": {
             "episodes_where_set_iteration_order_really_differed_between_nodes": st["set_order_differed"],
